@@ -251,6 +251,7 @@ impl Monitor for C04 {
             ("big", tier.pick(30_000, 1_500_000)),
             ("bytesweep", tier.pick(5_000, 300_000)),
             ("wordsweep", tier.pick(64, 4_000)),
+            ("jumbo", tier.pick(100_000, 10_000_000)),
         ]
     }
 
@@ -340,6 +341,70 @@ impl Monitor for C04 {
                 };
                 self.pair(rep, &case, Family::Sliced, Family::Headers);
                 self.pair(rep, &case, Family::LaxSliced, Family::LaxHeaders);
+            }
+            "jumbo" => {
+                // RFC 2675 shape: IPv6 payload length 0 and a hop-by-hop header that starts with a
+                // jumbo payload option (C2 04 + 32 bit length) - stating the true size, less, more
+                // or nonsense. No decoder of the crate interprets the option (documented: "the
+                // entire rest of the slice"), so all families must go on agreeing.
+                let mut bytes = Vec::new();
+                for _ in 0..64 {
+                    let b = gen::gen_ipv6(rng, gen::Lie::None);
+                    if b.bytes.len() >= 48 && b.bytes[6] == 0 && b.bytes[0] >> 4 == 6 {
+                        bytes = b.bytes;
+                        break;
+                    }
+                }
+                if bytes.is_empty() {
+                    rep.count("jumbo.no_hop_by_hop_packet_generated");
+                    return;
+                }
+                let rest = bytes.len() - 40;
+                let announced: u32 = match rng.below(8) {
+                    0 => rest as u32,
+                    1 => rest.saturating_sub(rng.range(1, 9) as usize) as u32,
+                    2 => rest as u32 + rng.range(1, 9) as u32,
+                    3 => 0,
+                    4 => 8,
+                    5 => rng.below(rest as u64 + 1) as u32,
+                    6 => 65_536 + rng.below(16) as u32,
+                    _ => rng.u32_corner(),
+                };
+                bytes[42] = 0xC2;
+                bytes[43] = 4;
+                bytes[44..48].copy_from_slice(&announced.to_be_bytes());
+                if rng.chance(3, 4) {
+                    bytes[4] = 0;
+                    bytes[5] = 0;
+                    rep.count("jumbo.payload_length_zero");
+                }
+                if rng.chance(1, 4) {
+                    let n = rng.range(1, 12) as usize;
+                    bytes.extend_from_slice(&rng.bytes(n));
+                }
+                rep.count("jumbo.cases");
+                let inner = Case {
+                    bytes,
+                    start: Start::Ip,
+                    recipe: None,
+                    desc: format!("ipv6 jumbo option announcing {} for {} octets", announced, rest),
+                };
+                for start in [Start::Ip, Start::EtherType(0x86dd), Start::Eth] {
+                    let mut c = Case {
+                        bytes: inner.bytes.clone(),
+                        start,
+                        recipe: None,
+                        desc: inner.desc.clone(),
+                    };
+                    if start == Start::Eth {
+                        let mut b = rng.bytes(12);
+                        b.extend_from_slice(&[0x86, 0xdd]);
+                        b.extend_from_slice(&inner.bytes);
+                        c.bytes = b;
+                    }
+                    self.pair(rep, &c, Family::Sliced, Family::Headers);
+                    self.pair(rep, &c, Family::LaxSliced, Family::LaxHeaders);
+                }
             }
             "ethertype" => {
                 let t = (idx % 65_536) as u16;
